@@ -11,6 +11,8 @@ import (
 	"math"
 	"math/rand"
 	"os"
+	"sync"
+	"sync/atomic"
 
 	"github.com/EliCDavis/polyform/math/sample"
 	"github.com/EliCDavis/polyform/math/sdf"
@@ -193,7 +195,37 @@ func sign(x float64) int {
 	return 0
 }
 
-func evalLine(c Case, raw json.RawMessage, id, blk int, pts [][]int) (ln line) {
+// built: the closures of one case, constructed once and shared by every line
+// of the case (concurrent mode); nil = construct them for this line.
+type built struct {
+	f     sample.Vec3ToFloat
+	ops   []sample.Vec3ToFloat
+	shift vector3.Float64
+	ok    bool
+}
+
+func buildCase(c Case, den float64) (b *built) {
+	b = &built{}
+	defer func() {
+		if r := recover(); r != nil {
+			b.ok = false
+		}
+	}()
+	b.f = Build(c.Shape, den)
+	switch c.Shape.T {
+	case "union", "inter", "sub":
+		for _, o := range c.Shape.Ss {
+			b.ops = append(b.ops, Build(o, den))
+		}
+	case "tr":
+		b.ops = append(b.ops, Build(c.Shape.Ss[0], den))
+		b.shift = vec(c.Shape.O, den)
+	}
+	b.ok = true
+	return b
+}
+
+func evalLine(c Case, raw json.RawMessage, id, blk int, pts [][]int, pre *built) (ln line) {
 	ln = line{K: "sdf", Id: id, Blk: blk, Den: c.Den, E2: c.E2, Shape: raw, Pts: [][]int{}, Ops: [][]int{}}
 	ln.Q = scaleFor(c.Shape, pts)
 	// one lattice unit is 2^e2 / den (den is 1, 2 or 4: dividing by den * 2^-e2 is exact); values are logged in
@@ -218,18 +250,13 @@ func evalLine(c Case, raw json.RawMessage, id, blk int, pts [][]int) (ln line) {
 			}
 		}
 	}()
-	f := Build(c.Shape, den)
-	var ops []sample.Vec3ToFloat
-	var shift vector3.Float64 // operands are evaluated at p - shift
-	switch c.Shape.T {
-	case "union", "inter", "sub":
-		for _, o := range c.Shape.Ss {
-			ops = append(ops, Build(o, den))
-		}
-	case "tr":
-		ops = append(ops, Build(c.Shape.Ss[0], den))
-		shift = vec(c.Shape.O, den)
+	if pre == nil {
+		pre = buildCase(c, den)
 	}
+	if !pre.ok {
+		panic("constructor panicked")
+	}
+	f, ops, shift := pre.f, pre.ops, pre.shift // operands are evaluated at p - shift
 	project := func(x float64) (F, sg int, ok bool) {
 		if math.IsNaN(x) || math.IsInf(x, 0) {
 			return 0, 0, false
@@ -266,7 +293,10 @@ func evalLine(c Case, raw json.RawMessage, id, blk int, pts [][]int) (ln line) {
 // the 7x7x7 lattice (every pair of neighbouring lattice points shares a block)
 // plus one line of `far` seeded random points around the shape (seeded by
 // seed and idBase + case index, so that a single case can be replayed).
-func RunCases(in, out string, seed int64, far int, idBase int) error {
+// With par > 1 the closures of a case are constructed once and its lines are
+// evaluated by par goroutines at the same time, lines of different cases
+// interleaved - the way the marching canvas evaluates a field from its workers.
+func RunCases(in, out string, seed int64, far int, idBase int, par int) error {
 	fi, err := os.Open(in)
 	if err != nil {
 		return err
@@ -282,6 +312,15 @@ func RunCases(in, out string, seed int64, far int, idBase int) error {
 	enc := json.NewEncoder(w)
 	sc := bufio.NewScanner(fi)
 	sc.Buffer(make([]byte, 1<<20), 1<<28)
+	type job struct {
+		c   Case
+		raw json.RawMessage
+		id  int
+		blk int
+		pts [][]int
+		pre *built
+	}
+	jobs := []job{}
 	id := 0
 	for sc.Scan() {
 		if len(sc.Bytes()) == 0 {
@@ -298,6 +337,10 @@ func RunCases(in, out string, seed int64, far int, idBase int) error {
 		if c.Den < 1 || c.Lat.N < 3 || len(c.Lat.Lo) != 3 || len(c.Lat.St) != 3 {
 			return fmt.Errorf("case %d: malformed", id)
 		}
+		var pre *built
+		if par > 1 {
+			pre = buildCase(c, float64(c.Den)*math.Ldexp(1, -c.E2))
+		}
 		at := func(i, j, k int) []int {
 			return []int{c.Lat.Lo[0] + i*c.Lat.St[0], c.Lat.Lo[1] + j*c.Lat.St[1], c.Lat.Lo[2] + k*c.Lat.St[2]}
 		}
@@ -313,7 +356,7 @@ func RunCases(in, out string, seed int64, far int, idBase int) error {
 							}
 						}
 					}
-					_ = enc.Encode(evalLine(c, raw.Shape, id, blk, pts))
+					jobs = append(jobs, job{c, raw.Shape, id, blk, pts, pre})
 					blk++
 				}
 			}
@@ -325,9 +368,39 @@ func RunCases(in, out string, seed int64, far int, idBase int) error {
 			for i := range pts {
 				pts[i] = []int{lo[0] - 10 + r.Intn(hi[0]-lo[0]+21), lo[1] - 10 + r.Intn(hi[1]-lo[1]+21), lo[2] - 10 + r.Intn(hi[2]-lo[2]+21)}
 			}
-			_ = enc.Encode(evalLine(c, raw.Shape, id, blk, pts))
+			jobs = append(jobs, job{c, raw.Shape, id, blk, pts, pre})
 		}
 		id++
 	}
-	return sc.Err()
+	if err := sc.Err(); err != nil {
+		return err
+	}
+	if par <= 1 {
+		for _, j := range jobs {
+			_ = enc.Encode(evalLine(j.c, j.raw, j.id, j.blk, j.pts, nil))
+		}
+		return nil
+	}
+	lines := make([]line, len(jobs))
+	var wg sync.WaitGroup
+	next := int64(-1)
+	for g := 0; g < par; g++ {
+		wg.Add(1)
+		go func() {
+			defer wg.Done()
+			for {
+				n := int(atomic.AddInt64(&next, 1))
+				if n >= len(jobs) {
+					return
+				}
+				j := jobs[n]
+				lines[n] = evalLine(j.c, j.raw, j.id, j.blk, j.pts, j.pre)
+			}
+		}()
+	}
+	wg.Wait()
+	for n := range lines {
+		_ = enc.Encode(lines[n])
+	}
+	return nil
 }
